@@ -163,9 +163,16 @@ func runCell(c *run.Ctx, cell c14Cell) {
 		if reqType == wire.PINGREQ || reqType == wire.DISCONNECT {
 			return true
 		}
-		return strings.Contains(string(p), marker)
+		if strings.Contains(string(p), marker) {
+			return true
+		}
+		// the client may hand a packet over in parts: in a first part the
+		// marker may lie beyond
+		hl, rem, err := wire.Header(p)
+		return err != nil || hl+rem > len(p)
 	}
 	reqWrites := 0
+	faultInjected := false
 	w.WritePlan = func(cn *sim.Conn, p []byte) sim.WriteDecision {
 		if !isReq(p) {
 			return sim.WriteDecision{Accept: -1}
@@ -191,6 +198,7 @@ func runCell(c *run.Ctx, cell c14Cell) {
 		if cell.Quit == "during-write" {
 			d.Gate = "req"
 		}
+		faultInjected = d.Then != "" || d.GateAfter != ""
 		return d
 	}
 	hold := cell.Quit == "awaiting-response" || cell.Place == "close-awaiting"
@@ -509,6 +517,9 @@ func runCell(c *run.Ctx, cell c14Cell) {
 	} else {
 		// expectations by construction for the requests
 		want := ""
+		w.Mu.Lock()
+		faultInjected := faultInjected
+		w.Mu.Unlock()
 		switch {
 		case cell.Arg == "invalid":
 			want = "IsDeny"
@@ -516,6 +527,9 @@ func runCell(c *run.Ctx, cell c14Cell) {
 			want = "ErrClosed"
 		case cell.Quit == "nil" && (cell.State == "down" || cell.State == "pending-fail"):
 			want = "ErrDown"
+		case cell.Quit == "nil" && cell.State == "online" && strings.HasPrefix(cell.Place, "write-") && !faultInjected:
+			// the fault did not find its write: nothing to expect from it
+			c.Count("write_fault_not_injected", 1)
 		case cell.Quit == "nil" && cell.State == "online" && strings.HasPrefix(cell.Place, "write-"):
 			want = "ErrSubmit"
 		case cell.Quit == "nil" && cell.State == "online" && (cell.Place == "response-lost" || cell.Place == "response-malformed"):
